@@ -558,13 +558,14 @@ mod v_socket_udp {
         m.endpoint == e.ep && m.local_address == e.local
     }
 
-    /// the receive queue equals the ghost (an `opt` tail entry may be missing as a whole); returns whether
-    /// the `opt` entry was delivered
-    fn drain_rx(s: &mut Socket<'_>, g: &Ghost) -> bool {
-        assert!(!g.overflow, "prop:c09_udp_rx_more_datagrams_than_metadata_slots");
+    /// the receive queue equals the ghost (an `opt` tail entry may be missing as a whole): `n` = number of
+    /// datagrams that can be queued at most (sends of the script, at most MC); returns whether the `opt` entry
+    /// was delivered
+    fn drain_rx(s: &mut Socket<'_>, g: &Ghost, n: usize) -> bool {
+        assert!(!g.overflow && (n == MC || !g.q[MC - 1].valid), "prop:c09_udp_rx_more_datagrams_than_metadata_slots");
         let mut tail = false;
         let mut i = 0;
-        while i < MC {
+        while i < n {
             let e = g.q[i];
             match s.recv() {
                 Ok((buf, m)) => {
@@ -621,7 +622,7 @@ mod v_socket_udp {
         // delivered exactly once with (source endpoint, destination address), or not at all
         g.push(tag, size, src, Some(dst), true);
         let bytes_after = s.recv_queue();
-        let delivered = drain_rx(&mut s, &g);
+        let delivered = drain_rx(&mut s, &g, MC);
         if !delivered {
             assert!(!(before == 0 && size <= pcap), "prop:c09_udp_empty_rx_accepts_up_to_capacity");
         } else {
@@ -664,17 +665,16 @@ mod v_socket_udp {
         kani::cover!(r == Err(RecvError::Truncated) && g.count() >= 1, "short user buffer: Truncated, next datagram still queued");
         kani::cover!(matches!(r, Ok((n, _)) if n == ulen && n >= 3) && g.count() >= 1, "exact-size user buffer");
         kani::cover!(matches!(r, Ok((n, _)) if n < ulen), "larger user buffer");
-        drain_rx(&mut s, &g);
+        drain_rx(&mut s, &g, MC);
     }
 
-    // @harness props=C09 cfg=KG tier=q to=900 mem=8 unwind=17 opts=nomem covers=3 funcs=udp::Socket::peek;udp::Socket::peek_slice;udp::Socket::recv;PacketBuffer::peek bounds=rx_metadata_slots_1..=3;_payload_ring_0..=8;_pre-state_=_process,_process,_recv,_process_(each_may_be_a_no-op;_sizes_1..=9);_user_buffer_0..=9_bytes
+    // @harness props=C09 cfg=KG tier=q to=900 mem=8 unwind=17 opts=nomem covers=3 funcs=udp::Socket::peek;udp::Socket::peek_slice;udp::Socket::recv;PacketBuffer::peek bounds=rx_metadata_slots_1..=3;_payload_ring_0..=8;_pre-state_=_process,_process,_recv_(each_may_be_a_no-op;_sizes_1..=9);_user_buffer_0..=9_bytes
     #[kani::proof]
     pub(crate) fn udp_peek() {
         rx_setup!(dev, iface, cx, s, g, bound);
         step_process(&mut s, cx, &mut g);
         step_process(&mut s, cx, &mut g);
         step_recv(&mut s, &mut g);
-        step_process(&mut s, cx, &mut g);
         let head = g.q[0];
         match s.peek() {
             Ok((buf, m)) => {
@@ -706,11 +706,11 @@ mod v_socket_udp {
             }
             Err(RecvError::Exhausted) => assert!(!head.valid, "prop:c09_udp_rx_no_datagram_lost"),
         }
-        kani::cover!(trunc && g.count() >= 2, "peek_slice Truncated with two queued");
+        kani::cover!(trunc && g.count() == 2, "peek_slice Truncated with two queued");
         kani::cover!(!trunc && head.valid && head.len >= 3, "peek_slice copied the head");
         kani::cover!(head.valid && g.popped, "peek after an earlier recv");
         // peeking consumes nothing, also when it reported Truncated
-        drain_rx(&mut s, &g);
+        drain_rx(&mut s, &g, 2);
     }
 
     // Concrete witness (receive side of udp_padding_left_behind_tx): can_recv() answers true although
@@ -808,7 +808,7 @@ mod v_socket_udp {
 
     // A datagram whose explicit local address (or the socket's bound address) has the other IP version than
     // its destination is accepted by `send`; `dispatch` (i.e. `Interface::poll`) must not panic on it.
-    // @harness props=C09 cfg=KG tier=q to=600 mem=8 unwind=17 opts=nomem covers=2 funcs=udp::Socket::send_slice;udp::Socket::dispatch;IpRepr::new bounds=one_datagram_<=9_bytes;_local/bound_address_and_destination_of_different_IP_versions
+    // @harness props=C09 cfg=KG tier=q to=600 mem=4 unwind=17 opts=nomem covers=2 funcs=udp::Socket::send_slice;udp::Socket::dispatch;IpRepr::new bounds=one_datagram_<=9_bytes;_local/bound_address_and_destination_of_different_IP_versions
     #[kani::proof]
     pub(crate) fn udp_version_mismatch() {
         #[cfg(feature = "proto-ipv6")]
